@@ -51,6 +51,9 @@ def liftV {α : Type} (f : VS → VS × Outcome α) (s : VW) : VW × Outcome α 
 /-- `self.len = n` -/
 def set_len (n : Nat) (s : VW) : VW × Outcome Unit := (({ s.1 with len := n }, s.2), .ok ())
 
+/-- what a `SetLenOnDrop` guard does when its scope ends (also by unwinding) -/
+def store_len (n : Nat) (s : VW) : VW := ({ s.1 with len := n }, s.2)
+
 /-- `ptr::write(p.add(i), e)` -/
 def write (c : Cfg) (i : Nat) (e : Elem) (s : VW) : VW × Outcome Unit := (s.1.write c i e s.2, .ok ())
 
@@ -70,6 +73,17 @@ def drop_in_place (c : Cfg) (what : String) (i : Nat) (s : VW) : VW × Outcome U
   | some e =>
     let r := dropElem c s.2 e
     ((s.1, r.1), if r.2 then .panic else .ok ())
+
+/-- an owned local reaches the end of its scope: its destructor runs (and may panic) -/
+def drop_local (c : Cfg) (e : Elem) (s : VW) : VW × Outcome Unit :=
+  let r := dropElem c s.2 e
+  ((s.1, r.1), if r.2 then .panic else .ok ())
+
+/-- `ExtendElement::next`: `self.0.clone()` (may panic) -/
+def clone_next (c : Cfg) (x : Elem) (s : VW) : VW × Outcome Elem :=
+  match cloneElem c s.2 x with
+  | (w, none) => ((s.1, w), .panic)
+  | (w, some e) => ((s.1, w), .ok e)
 
 /-- the value is handed to the caller -/
 def moved (e : Elem) (s : VW) : VW := (s.1, s.2.moved e)
